@@ -43,6 +43,7 @@ def gen(rng, tier):
         # what staging really passes: particle host ids in file order, i.e. runs of equal values
         c['search']['b'] = sorted(v for v in c['search']['b'] for _ in range(rng.randrange(1, 4)))
     c['compiled'] = (tier == 'thorough' and rng.random() < 0.05)
+    c['failed_call_before'] = rng.random() < 0.2
     return c
 
 
@@ -148,12 +149,21 @@ def run(case):
     s = case['sched']
     T = case['Nthread']
     site = 'gen_gal_cat'
+
+    def fail_first(nt):
+        # history: a call with the same thread count that dies midway (a tracer dictionary without the required
+        # key s_v: KeyError after the central pass) comes first; whatever it left behind must not matter
+        if case.get('failed_call_before') and c['tracers']:
+            bad = {t: {k: v for k, v in c['tracers'][t].items() if k != 's_v'} for t in HR.tracer_order(c)}
+            H.run(lambda: HR.call(G, c, nt, tracers=bad), {'policy': 'static', 'strategy': 'serial'})
+    fail_first(1)
     ref, exc, summ1 = H.run(lambda: HR.flatten(HR.call(G, c, 1)), {'policy': 'static', 'strategy': 'serial'}, poison='A')
     if exc is not None:
         violation(out, 'raises:' + type(exc).__name__, site + '[Nthread=1]', repr(exc)[:300])
         return out
     results = {}
     for poison in ('A', 'B'):
+        fail_first(T)
         res, exc, summ = H.run(lambda: HR.flatten(HR.call(G, c, T)), s, poison=poison)
         if SIM.oob_events:
             ev = SIM.oob_events[0]
